@@ -7,6 +7,9 @@ pub mod c05;
 pub mod c06;
 pub mod c07;
 pub mod c08;
+pub mod c16;
+pub mod c17;
+pub mod c18;
 
 pub fn lookup(id: &str) -> Option<fn(&mut Run)> {
     Some(match id {
@@ -16,6 +19,15 @@ pub fn lookup(id: &str) -> Option<fn(&mut Run)> {
         "C06" => c06::run,
         "C07" => c07::run,
         "C08" => c08::run,
+        "C16" => c16::run,
+        "C17" => c17::run,
+        "C18" => c18::run,
+        "SELFTEST" => selftest,
         _ => return None,
     })
+}
+
+fn selftest(_run: &mut Run) {
+    crate::umh::install();
+    println!("umh selftest passed");
 }
